@@ -19,7 +19,7 @@ ASSUME = [
 DAILY = ["1h", "1.5h", "1.6h", "2h", "2.5h", "3.5h", "4h", "90min", "1d"]
 WEEKLY = ["5h", "7.5h", "10h", "10.6h", "16h", "450min", "1d", "0.5w"]
 BOTH = ["2h+5h", "1.5h+7.5h", "4h+10h", "1h+16h"]   # a daily AND a weekly limit on the same entity (either may be the binding one)
-PLACES = ["res", "group", "grandgroup", "task", "container", "grandcontainer", "restrict", "restrict+general", "team", "groupteam", "midslot", "midslot-group", "teampre", "groupalt", "groupdirect", "emptymid", "emptymid-task"]
+PLACES = ["res", "group", "grandgroup", "task", "container", "grandcontainer", "restrict", "restrict+general", "team", "groupteam", "midslot", "midslot-group", "teampre", "groupalt", "groupdirect", "emptymid", "emptymid-task", "mixdirs"]
 HORIZONS = {
     # name: (start, dur, effort hours for a weekly 5h / daily 2h limit)
     "fits": ("2025-01-06", "3w"),
@@ -99,6 +99,14 @@ def to_spec(it):
             tasks.append({"id": "y", "effort": eff_min // 2, "alloc": ["r2"], "alt": ["grp"]})
         else:
             tasks += [{"id": "viagroup", "effort": 60, "alloc": ["grp"], "prio": 600}, {"id": "y", "effort": eff_min // 2, "alloc": ["r2"]}]
+    elif place == "mixdirs":
+        # the limited resource is booked by a FORWARD and a BACKWARD task (task-level alap with an end) whose work meets in the same
+        # days / weeks; whole-slot efforts
+        r1["limits"] = lim
+        x["effort"] = max(L, (eff_min // 2) // L * L)
+        from datetime import datetime, timedelta
+        end = (datetime.strptime(start, "%Y-%m-%d") + timedelta(days=4)).strftime("%Y-%m-%d") + "-17:00"
+        tasks.append({"id": "late", "effort": max(L, (eff_min // 2) // L * L), "alloc": ["r1"], "sched": "alap", "end": end, "prio": 400})
     elif place == "emptymid":
         # the limit sits on the department; the team in between states an EMPTY limits block of its own
         resources = [{"id": "dept", "limits": lim, "children": [{"id": "team", "limits_empty": True, "children": [r1, r2]}]}]
